@@ -86,7 +86,7 @@ BOTS = ["all good", "it's {sunny} $today", "fine: yes", "ok"]
 D_ROUTES = ["llm", "predef", "next_llm", "pl", "act_llm", "next_predef"]
 
 
-def make_case(subset, spelling, n_out, vin, vout, user_noise, bot_noise, route, exc=False, warm=False):
+def make_case(subset, spelling, n_out, vin, vout, user_noise, bot_noise, route, exc=False, warm=False, empty_bot=False):
     subset = [c for c in CATS if c in subset]
     T = 1 if warm else 0
     turn = {
@@ -99,13 +99,23 @@ def make_case(subset, spelling, n_out, vin, vout, user_noise, bot_noise, route, 
     }
     if "dialog" not in subset and "output" in subset:
         turn["bot"] = f"{fakes.mk_llm(T, SUPPLIED_K)} {bot_noise}"
+        if empty_bot:
+            # the supplied bot message is the empty string: still a bot message, the selected output rails run on it
+            turn["bot"] = ""
+            turn["out_any_text"] = True  # the fake rails judge this marker-less text too
+            turn["out"] = ["accept" if v == "rewrite" else v for v in vout]
     turns = [turn]
     if warm:
         # a first call of the same conversation with ALL rails (no `rails` option): the judged call then resends its messages,
         # so whatever the instance remembers about that prefix (events cache) must not override the options of this call
         turns = [{"user": f"hello there {fakes.mk_user(0)}", "route": "llm", "in": ["accept", "accept"], "out": ["accept"] * n_out, "body": "first words",
                   "options": {"log": {"activated_rails": True}}}, turn]
-    return {"config": _cfg(n_out, exc), "turns": turns, "subset": subset, "spelling": spelling, "api": "sync"}
+    cfg = _cfg(n_out, exc)
+    if turn.get("bot") == "":
+        # rails of kind "both" hand back the (possibly rewritten) text and refuse on a falsy result - the harness's own rail flows
+        # could not tell an accepted empty message from a rejection; the empty-message cases use plain checking rails
+        cfg["out"] = ["check"] * n_out
+    return {"config": cfg, "turns": turns, "subset": subset, "spelling": spelling, "api": "sync"}
 
 
 def enumerate_cases(tier):
@@ -120,6 +130,8 @@ def enumerate_cases(tier):
                             yield make_case(subset, spelling, n_out, vin, vout, USERS[n % len(USERS)], BOTS[n % len(BOTS)], D_ROUTES[n % len(D_ROUTES)])
                             if n % 4 == 0:
                                 yield make_case(subset, spelling, n_out, vin, vout, USERS[n % len(USERS)], BOTS[n % len(BOTS)], D_ROUTES[n % len(D_ROUTES)], warm=True)
+                            if "dialog" not in subset and "output" in subset and "rewrite" not in vout and n % 3 == 0:
+                                yield make_case(subset, spelling, n_out, vin, vout, USERS[n % len(USERS)], "", D_ROUTES[0], empty_bot=True)
 
 
 @st.composite
@@ -131,7 +143,7 @@ def _case(draw):
     vout = [draw(pipeline.st_verdict("both")) for _ in range(n_out)]
     noise = st.one_of(st.text(pipeline.HOSTILE, min_size=1, max_size=14), st.sampled_from(pipeline.INTENT_EXAMPLES))
     bot = st.text(pipeline.TAME + "${}:\"", min_size=1, max_size=14)
-    return make_case(subset, spelling, n_out, vin, vout, draw(noise), draw(bot), draw(st.sampled_from(D_ROUTES)), exc=draw(st.sampled_from([False, False, False, True])), warm=draw(st.booleans()))
+    return make_case(subset, spelling, n_out, vin, vout, draw(noise), draw(bot), draw(st.sampled_from(D_ROUTES)), exc=draw(st.sampled_from([False, False, False, True])), warm=draw(st.booleans()), empty_bot=draw(st.integers(0, 5)) == 0)
 
 
 def strategy(tier):
@@ -150,7 +162,7 @@ def _check(case, obs):
         return ok(skip="warm-up call raised: " + str(obs.turns[0]["raised"])[:80], labels=["warm-up-raised"])
     sel = set(case["subset"])
     I, D, R, O = ("input" in sel), ("dialog" in sel), ("retrieval" in sel), ("output" in sel)
-    what = f"rails={spec['options']['rails']!r} in={spec['in']} out={spec['out']}" + (f" route={spec['route']}" if D else "") + (" +bot message" if spec.get("bot") else "")
+    what = f"rails={spec['options']['rails']!r} in={spec['in']} out={spec['out']}" + (f" route={spec['route']}" if D else "") + ((" +bot message" if spec["bot"] else " +EMPTY bot message") if spec.get("bot") is not None else "")
     if o["raised"]:
         if pipeline.EVENT_BUDGET in o["raised"]:
             return ok(skip="v1 runtime gave up: more than 100 new events in one turn", labels=["event-budget-exceeded"])
@@ -215,7 +227,15 @@ def _check(case, obs):
                 raise Violation("reply-not-user-text", f"{what}: expected the reply to be the user text {user_now!r}, got {o['reply']!r}"[:500])
         else:
             mo = pipeline.model_output(cfg, spec, T, SUPPLIED_K, selected=True)
-            prob = pipeline.chain_problem(mo["calls"][: mo["need"]], out_entries, what)
+            if spec["bot"] == "":
+                # no marker to follow: the chain is judged by rail names and by the text each rail was given
+                labels.append("empty-supplied-bot-message")
+                want_rails = [c["rail"] for c in mo["calls"][: mo["need"]]]
+                if [e["rail"] for e in out_entries] != want_rails or any(e["text"] != "" for e in out_entries):
+                    raise Violation("output-rail-chain", f"{what}: output rails ran as {[(e['rail'], str(e['text'])[:30]) for e in out_entries]}, expected {want_rails} on the empty message")
+                prob = None
+            else:
+                prob = pipeline.chain_problem(mo["calls"][: mo["need"]], out_entries, what)
             if prob:
                 raise Violation("output-rail-chain", prob)
             expected_log += [("output", pipeline.rail_flow_name("out", i, cfg["out"][i]), c["verdict"] == "reject") for i, c in enumerate(mo["calls"][: mo["need"]])]
